@@ -47,6 +47,7 @@ type Portfolio struct {
 	quickMs   int
 	slowMs    int
 	prunedMs  int
+	usingMs   int
 	seed      int
 	cacheDir  string
 	workDir   string
@@ -57,11 +58,12 @@ type Portfolio struct {
 }
 
 func newPortfolio(tier string, seed int, cacheDir string) *Portfolio {
-	p := &Portfolio{quickMs: 2000, slowMs: 10000, prunedMs: 1500, seed: seed, cacheDir: cacheDir, perSolver: map[string]float64{}, nQueries: map[string]int{}, wins: map[string]int{}}
+	p := &Portfolio{quickMs: 2000, slowMs: 10000, prunedMs: 1500, usingMs: 10000, seed: seed, cacheDir: cacheDir, perSolver: map[string]float64{}, nQueries: map[string]int{}, wins: map[string]int{}}
 	if tier == "thorough" {
 		p.quickMs = 5000
 		p.slowMs = 60000
 		p.prunedMs = 4000
+		p.usingMs = 60000
 	}
 	if cacheDir != "" {
 		os.MkdirAll(cacheDir, 0o755)
@@ -70,7 +72,11 @@ func newPortfolio(tier string, seed int, cacheDir string) *Portfolio {
 }
 
 func runSolver(s Solver, query string, ms, seed int) SolveResult {
-	ctx, cancel := context.WithTimeout(context.Background(), time.Duration(ms+2000)*time.Millisecond)
+	return runSolverCtx(context.Background(), s, query, ms, seed)
+}
+
+func runSolverCtx(parent context.Context, s Solver, query string, ms, seed int) SolveResult {
+	ctx, cancel := context.WithTimeout(parent, time.Duration(ms+2000)*time.Millisecond)
 	defer cancel()
 	cmd := exec.CommandContext(ctx, s.Bin, s.Args(ms, seed)...)
 	q := query
@@ -127,6 +133,10 @@ func (p *Portfolio) account(r SolveResult) {
 
 // solvePruned: one quick z3-new attempt on a pruned query (cached).
 func (p *Portfolio) solvePruned(query string) SolveResult {
+	return p.solvePrunedT(query, p.prunedMs)
+}
+
+func (p *Portfolio) solvePrunedT(query string, ms int) SolveResult {
 	key := ""
 	if p.cacheDir != "" {
 		h := sha256.Sum256([]byte(query))
@@ -141,8 +151,10 @@ func (p *Portfolio) solvePruned(query string) SolveResult {
 	}
 	// z3 5.1 and z3 4.8 raced: they fail on different queries
 	ch := make(chan SolveResult, 2)
+	rctx, rcancel := context.WithCancel(context.Background())
+	defer rcancel() // kills the loser
 	for _, sv := range []Solver{solvers[0], solvers[1]} {
-		go func(sv Solver) { ch <- runSolver(sv, query+"(check-sat)\n", p.prunedMs, p.seed) }(sv)
+		go func(sv Solver) { ch <- runSolverCtx(rctx, sv, query+"(check-sat)\n", ms, p.seed) }(sv)
 	}
 	r := <-ch
 	p.account(r)
@@ -194,23 +206,18 @@ func (p *Portfolio) solve(query string, wantModel bool) SolveResult {
 		best = r
 	} else {
 		// race the others (and z3-new with the long timeout)
-		type res struct{ r SolveResult }
 		ch := make(chan SolveResult, 3)
+		rctx, rcancel := context.WithCancel(context.Background())
+		defer rcancel() // kills the losers
 		cands := []Solver{solvers[1], solvers[2], solvers[0]}
 		for _, s := range cands {
-			go func(s Solver) { ch <- runSolver(s, q, p.slowMs, p.seed) }(s)
+			go func(s Solver) { ch <- runSolverCtx(rctx, s, q, p.slowMs, p.seed) }(s)
 		}
 		for range cands {
 			rr := <-ch
 			record(rr)
 			if (rr.Status == "unsat" || rr.Status == "sat") && best.Status != "unsat" && best.Status != "sat" {
 				best = rr
-				// do not wait for the stragglers' results, but let them finish in the background
-				go func(n int) {
-					for i := 0; i < n; i++ {
-						<-ch
-					}
-				}(0)
 				break
 			}
 			if rr.Status == "timeout" && best.Status == "unknown" {
@@ -320,8 +327,12 @@ func solveAll(p *Portfolio, jobs []*job, workers int) {
 			for j := range ch {
 				var tried []string
 				done := false
-				for _, pq := range j.pruned {
-					pr := p.solvePruned(pq)
+				for pi, pq := range j.pruned {
+					ms := p.prunedMs
+					if pi == 0 && len(j.o.Using) > 0 {
+						ms = p.usingMs // the hypothesis selection given in the contract gets a generous budget
+					}
+					pr := p.solvePrunedT(pq, ms)
 					tried = append(tried, fmt.Sprintf("pruned:%s:%s:%.2fs", pr.Solver, pr.Status, pr.Seconds))
 					if pr.Status == "unsat" {
 						pr.Tried = tried
@@ -345,6 +356,48 @@ func solveAll(p *Portfolio, jobs []*job, workers int) {
 	}
 	close(ch)
 	wg.Wait()
+	// second chance on a quiet machine: an undecided obligation (timeout/unknown, never "sat")
+	// is retried alone with a three times larger budget before it is reported
+	var again []*job
+	for _, j := range jobs {
+		if j.o.Expect == "unsat" && j.o.Result != nil && (j.o.Result.Status == "timeout" || j.o.Result.Status == "unknown") {
+			again = append(again, j)
+		}
+	}
+	if len(again) > 0 && len(again) <= 12 {
+		saveU, saveP, saveQ, saveS := p.usingMs, p.prunedMs, p.quickMs, p.slowMs
+		p.usingMs *= 3
+		p.prunedMs *= 3
+		p.quickMs *= 3
+		p.slowMs *= 3
+		for _, j := range again {
+			first := j.o.Result
+			var tried []string
+			done := false
+			for pi, pq := range j.pruned {
+				ms := p.prunedMs
+				if pi == 0 && len(j.o.Using) > 0 {
+					ms = p.usingMs
+				}
+				pr := p.solvePrunedT(pq, ms)
+				tried = append(tried, fmt.Sprintf("retry-pruned:%s:%s:%.2fs", pr.Solver, pr.Status, pr.Seconds))
+				if pr.Status == "unsat" {
+					pr.Tried = append(first.Tried, tried...)
+					pr.Detail = "proved on retry (quiet machine, 3x budget) from a pruned subset of the hypotheses"
+					j.o.Result = &pr
+					done = true
+					break
+				}
+			}
+			if done {
+				continue
+			}
+			r := p.solve(j.query, true)
+			r.Tried = append(append(first.Tried, tried...), r.Tried...)
+			j.o.Result = &r
+		}
+		p.usingMs, p.prunedMs, p.quickMs, p.slowMs = saveU, saveP, saveQ, saveS
+	}
 }
 
 type job struct {
